@@ -299,6 +299,8 @@ def merge(results):
                         d[kk] = max(d.get(kk, vv), vv)
                     elif isinstance(vv, (int, float)):
                         d[kk] = d.get(kk, 0) + vv
+                    elif isinstance(vv, list):
+                        d[kk] = sorted(set(d.get(kk, []) + vv))
                     else:
                         d[kk] = vv
             elif isinstance(v, list):
